@@ -8,7 +8,7 @@ git -C /repo worktree add --detach -q "$wt" HEAD || exit 2
 if ! git -C "$wt" apply "$patch"; then echo "PATCH DOES NOT APPLY"; git -C /repo worktree remove --force "$wt"; exit 2; fi
 cd "$(dirname "$0")/.."
 for id in "$@"; do
-  VERIF_REPLAY_DIR=/tmp/mutreplays VERIF_REPO="$wt" ./check "$id" > /tmp/mutcheck_$id.log 2>&1; rc=$?
+  VERIF_REPLAY_DIR=/tmp/mutreplays VERIF_EVIDENCE_DIR=/tmp/mutevidence VERIF_REPO="$wt" ./check "$id" > /tmp/mutcheck_$id.log 2>&1; rc=$?
   echo "== $id rc=$rc"; grep -E "VIOLATION|KNOWN-FINDING|quick:|INFRA" /tmp/mutcheck_$id.log | head -5
 done
 git -C /repo worktree remove --force "$wt"
